@@ -393,7 +393,10 @@ func makeFieldOptValueHandling(h configHandling) func(...string) Option {
 			if o.fieldHandlingTree == nil {
 				o.fieldHandlingTree = newFieldHandlingTree()
 			}
-			o.fieldHandlingTree.merge(table, PathSep(o.pathSep), fieldHandlingNames)
+			// field names are written in dot notation, whatever separator the
+			// settings of the merged values use and wherever in the option
+			// list PathSep stands
+			o.fieldHandlingTree.merge(table, PathSep("."), fieldHandlingNames)
 		}
 	}
 }
